@@ -5,7 +5,7 @@ CONSTANTS
   Poss = {0, 3}
   Tags = {0}
   OpNames = {"insert", "remove", "retain", "extract_if", "drain"}
-  Vals = {1}
+  Vals = {0}
   KIds = {1}
   Es = 8
   MaxB = 16
